@@ -1,8 +1,11 @@
 package packet
 
 import (
+	"bytes"
 	"errors"
 	"io"
+
+	vp "github.com/Tnze/go-mc/internal/zzvp"
 )
 
 // vpPlainReader is an io.Reader that is NOT an io.ByteReader and delivers at
@@ -83,3 +86,87 @@ func (w *vpFailWriter) Write(p []byte) (int, error) {
 	w.buf = append(w.buf, p[:room]...)
 	return room, vpErrInjected
 }
+
+// vpRefLEB is the textbook unsigned LEB128 encoder.
+func vpRefLEB(v uint64) (out [10]byte, n int) {
+	for {
+		b := byte(v & 0x7F)
+		v >>= 7
+		if v != 0 {
+			out[n] = b | 0x80
+			n++
+			continue
+		}
+		out[n] = b
+		n++
+		return
+	}
+}
+
+
+// vpBE is the reference big-endian layout of the low `n` bytes of v.
+func vpBE(v uint64, n int) []byte {
+	out := make([]byte, n)
+	for i := 0; i < n; i++ {
+		out[i] = byte(v >> uint(8*(n-1-i)))
+	}
+	return out
+}
+
+// vpCheckWrite: WriteTo emits exactly ref and reports its length.
+func vpCheckWrite(enc FieldEncoder, ref []byte) {
+	var w bytes.Buffer
+	n, err := enc.WriteTo(&w)
+	vp.Assert(err == nil, "write err==nil")
+	vp.Assert(n == int64(len(ref)), "write n==layout length")
+	vp.Assert(w.Len() == len(ref), "bytes produced==layout length")
+	out := w.Bytes()
+	for i := range ref {
+		vp.Assert(out[i] == ref[i], "wire bytes==reference layout")
+	}
+}
+
+// vpCheckRead: ReadFrom on ref++trail reports len(ref) and leaves trail unread.
+// Both the io.ByteReader path and the plain-reader path are used.
+func vpCheckRead(dec FieldDecoder, ref []byte) {
+	trail := vp.Bytes(2)
+	stream := append(append([]byte{}, ref...), trail...)
+	if vp.Choice(2) == 0 {
+		r := bytes.NewReader(stream)
+		n, err := dec.ReadFrom(r)
+		vp.Assert(err == nil, "read err==nil")
+		vp.Assert(n == int64(len(ref)), "read n==layout length")
+		vp.Assert(r.Len() == len(trail), "reader advanced by exactly n")
+	} else {
+		r := &vpPlainReader{b: stream}
+		n, err := dec.ReadFrom(r)
+		vp.Assert(err == nil, "read err==nil")
+		vp.Assert(n == int64(len(ref)), "read n==layout length")
+		vp.Assert(r.pos == len(ref), "reader advanced by exactly n")
+	}
+}
+
+// vpPrior returns a destination byte slice in one of the prior states
+// {nil, shorter, longer, spare capacity} with arbitrary contents.
+func vpPrior(n int) []byte {
+	switch vp.Choice(4) {
+	case 0:
+		return nil
+	case 1:
+		if n == 0 {
+			return []byte{}
+		}
+		return vp.Bytes(n - 1)
+	case 2:
+		return vp.Bytes(n + 2)
+	default:
+		b := vp.Bytes(n + 3)
+		return b[:1]
+	}
+}
+
+func vpVarIntRef(v int32) []byte {
+	ref, m := vpRefLEB(uint64(uint32(v)))
+	return append([]byte{}, ref[:m]...)
+}
+
